@@ -81,9 +81,9 @@ class RegSystem:
     def roots(self):
         def build():
             prior = lambda: objs.mk_measure("GaussianMeasure", *[a[None] for a in rm.moment_to_nat(self.m0, self.S0)])
-            chains = {"setyT": prior(), "setyAlt": prior()}
+            chains = {"setyT": prior(), "setyAlt": prior(), "setyHadT": prior()}
             if len(self.b[0]) == 1:
-                chains.update({"rank1T": prior(), "rank1Alt": prior()})
+                chains.update({"rank1T": prior(), "rank1Alt": prior(), "rank1HadT": prior(), "setyHadAlt": prior()})
             return State(objs.mk_pdf("GaussianPDF", self.S0[None], self.m0[None]), 0.0, frozenset(), chains), dict(S=frozenset())
 
         return [("prior", build)]
@@ -113,7 +113,8 @@ class RegSystem:
                         r_ = self.y[i][0] - self.b[i][0]
                         v_ = self.M[i][0]
                         f = factor.OneRankFactor(v=J(v_[None]), g=J(np.array([g_])), nu=J((g_ * r_ * v_)[None]), ln_beta=J(np.array([-0.5 * g_ * r_ * r_ - 0.5 * np.log(2 * np.pi * self.Sy[i][0, 0])])))
-                    chains[name] = m.multiply(f, update_full=uf)
+                    # (one prior component, one factor entry: the element-wise product is the same route through hadamard)
+                    chains[name] = m.hadamard(f, update_full=uf) if "Had" in name else m.multiply(f, update_full=uf)
                 return State(post, ev, o.S | {i}, chains)
 
             out.append(("absorb:%d" % i, ap, (lambda mm, i=i: dict(S=mm["S"] | {i}))))
